@@ -15,6 +15,7 @@ import (
 	"sort"
 	"strconv"
 	"strings"
+	"time"
 
 	"golang.org/x/tools/go/ssa"
 )
@@ -735,7 +736,16 @@ func (u *unmarshalState) decode(n *jnode, t types.Type, addr *value, depth int) 
 			store(t, addr, copyVal(n.timeV))
 			return
 		case jStr:
-			unsupportedf("json: time parsed from text")
+			txt, ok := n.str.(string)
+			if !ok {
+				unsupportedf("json: time parsed from symbolic text")
+			}
+			tm, err := time.Parse(time.RFC3339Nano, txt)
+			if err != nil {
+				panic(jsonAbort{u.i.newErr("parsing time " + strconv.Quote(txt) + ": " + err.Error())})
+			}
+			store(t, addr, structure{uint64(1), tm.UnixNano(), (*value)(nil)})
+			return
 		}
 		u.typeErr(nodeKindName(n), t)
 		return
